@@ -269,12 +269,22 @@ func (p *Core) genMut() []sim.Op {
 		ops = append(ops, sim.Op{K: "upd", P: ps.Route, X: int64(e), M: h})
 	}
 	nl := int64(w.Intn(64))
-	nv := int64(w.Intn(12))
+	nv := int64(w.Intn(14))
+	target := int64(0)
+	if kind == "ack" && ps.V2 && len(ps.Ack2.AppAcknowledgements) > 1 && w.Chance(0.35) {
+		// one app acknowledgement of a multi-payload list, any byte mutation incl. the digest-prefix one
+		target = -(1 + 16*int64(w.Intn(len(ps.Ack2.AppAcknowledgements))) + int64(w.Intn(7)))
+		w.Stats.Probe("mutation_aimed_at_one_app_ack_of_a_list")
+	}
 	x := int64(0)
 	if w.Chance(0.15) {
 		x = 1 + int64(w.Intn(4096)) // second field
 	}
-	return append(ops, sim.Op{K: "mut", T: ps.Tag, S: kind, N: nl*16 + nv, M: h, X: x})
+	n := nl*16 + nv
+	if target != 0 {
+		n, x = target, 0
+	}
+	return append(ops, sim.Op{K: "mut", T: ps.Tag, S: kind, N: n, M: h, X: x})
 }
 
 // execMut builds the honest message, mutates one (or two) reflected leaves and delivers it
@@ -335,7 +345,24 @@ func (p *Core) execMut(op sim.Op) {
 		ls = keep
 	}
 	li := int(op.N/16) % len(ls)
-	desc := mutateLeaf(ls[li], int(op.N%16), p.knownIDs())
+	vn := int(op.N % 16)
+	if op.N < 0 {
+		// targeted form: N = -(1 + 16*i + variant) aims at app acknowledgement i of a v2 ack list
+		k := -op.N - 1
+		vn = int(k % 16)
+		want := fmt.Sprintf(".Acknowledgement.AppAcknowledgements[%d]", k/16)
+		li = -1
+		for i, l := range ls {
+			if l.path == want {
+				li = i
+			}
+		}
+		if li < 0 {
+			w.Noop()
+			return
+		}
+	}
+	desc := mutateLeaf(ls[li], vn, p.knownIDs())
 	path := ls[li].path
 	neutral := uncommittedLeaf(path)
 	if desc == "" {
